@@ -38,8 +38,10 @@ import tempfile as _real_tempfile
 
 _REAL_OPEN = builtins.open
 
-UNPARSEABLE_LINES = (b'x = = 1\n', b's = "unterminated\n', b'if x then\n', b'y = [[ never closed\n',
-                     b'end end\n')
+# lines that picotool's lexer/parser rejects.  Entries 0 and 2 are rejected wherever they stand; 1 and 3 only as
+# the LAST line (an open " or [[ in front of other code may be closed by a quote / ]] in that code - picotool's
+# lexer lets quoted strings run over line ends).  ('end end' is not listed: picotool's parser accepts it.)
+UNPARSEABLE_LINES = (b'x = = 1\n', b's = "unterminated\n', b'if x then\n', b'y = [[ never closed\n')
 
 SECTION_TARGETS = {
     # section -> (module, class, index of the call among that class' calls during one encoding)
@@ -171,16 +173,34 @@ def _snapshot():
     return snap
 
 
+def _refresh_pristine():
+    """(Re)take the reference snapshot.  The runner purges and re-imports pico8 at the start of every
+    part, and a pool worker may run several parts: the snapshot is tied to the current module objects.
+    builtins.open and png.Writer.write live outside pico8 and are compared with their true originals."""
+    pfile = _pico()[0]
+    import png
+    if 'png.Writer.write' not in _outside:
+        _outside['png.Writer.write'] = vars(png.Writer).get('write')
+    if _pristine.get('__file_module__') is not pfile:
+        _pristine.clear()
+        _pristine.update(_snapshot())
+        _pristine['__file_module__'] = pfile
+
+
+_outside = {}
+
+
 def check_clean():
-    """Raise RuntimeError if any patch point differs from its first-seen (unpatched) value."""
+    """Raise RuntimeError if any patch point differs from its unpatched value."""
     if _active[0] is not None:
         raise RuntimeError('an Injector is still active')
+    _refresh_pristine()
     now = _snapshot()
-    if not _pristine:
-        _pristine.update(now)
     bad = [k for k in sorted(now) if now[k] is not _pristine[k]]
     if builtins.open is not _REAL_OPEN:
         bad.append('builtins.open(real)')
+    if now['png.Writer.write'] is not _outside['png.Writer.write']:
+        bad.append('png.Writer.write(real)')
     if bad:
         raise RuntimeError('leaked fault-injection patches: %s' % ', '.join(bad))
 
@@ -240,8 +260,7 @@ class Injector:
     def __enter__(self):
         if _active[0] is not None:
             raise RuntimeError('nested Injector')
-        if not _pristine:
-            _pristine.update(_snapshot())
+        _refresh_pristine()
         _active[0] = self
         self.active = True
         try:
